@@ -112,6 +112,9 @@ class Ctx(object):
             return dict(version='FCS3.0', datatype='F', byteord='1,2,3,4', widths=[32] * 6, ranges=[1024] * 6, names=NAMES,
                         pne=['0,0'] * 6, n=n, data_seed=self.seed, negatives=True,
                         extra=[['$TIMESTEP', '0.5']])
+        if kind == 'mixed':
+            return dict(version='FCS3.0', datatype='I', byteord='1,2,3,4', widths=[8, 16, 32, 24, 16, 16],
+                        ranges=[256, 1024, 65536, 4096, 1024, 1024], names=NAMES, pne=['0,0'] * 6, n=n, data_seed=self.seed)
         return dict(version='FCS2.0', datatype='I', byteord='4,3,2,1', widths=[16] * 6, ranges=[1024] * 6, names=NAMES,
                     pne=['0,0', '0,0', '4,1', '4,0', '2,0.1', '0,0'], png=[None, '2', None, None, None, None],
                     pnv=['300', '350', '600', '650', None, None], pns=[None, None, 'GFP', 'RFP', None, None],
@@ -190,6 +193,14 @@ def build_recipes():
     add('io.read_fcs_data_segment', lambda c: (fio.read_fcs_data_segment, [open(c.path()[0], 'rb'), c.path()[2]['data_begin'],
                                                                            c.path()[2]['data_end'], 'I', c.n,
                                                                            _own(c, [16] * 6), True], dict(param_ranges=[1024.0] * 6)))
+    add('io.read_fcs_data_segment', lambda c: (fio.read_fcs_data_segment, [open(c.path('mixed')[0], 'rb'), c.path('mixed')[2]['data_begin'],
+                                                                           c.path('mixed')[2]['data_end'], 'I', c.n,
+                                                                           _own(c, np.array([8, 16, 32, 24, 16, 16], dtype=np.int64)), False],
+                                               dict(param_ranges=_own(c, np.array([256.0, 1024.0, 65536.0, 4096.0, 1024.0, 1024.0])))))
+    add('io.read_fcs_data_segment', lambda c: (fio.read_fcs_data_segment, [open(c.path()[0], 'rb'), c.path()[2]['data_begin'],
+                                                                           c.path()[2]['data_end'], 'I', c.n,
+                                                                           _own(c, np.array([16] * 6, dtype=np.int64)), True],
+                                               dict(param_ranges=_own(c, np.array([1024.0] * 6)))))
     add('io.FCSFile', lambda c: (fio.FCSFile, [c.path()[0]], {}))
     add('io.FCSData', lambda c: (fio.FCSData, [c.path()[0]], {}))
     for prop in ('infile', 'header', 'text', 'data', 'analysis'):
@@ -540,6 +551,11 @@ def queries():
     for sc in SCALES:
         Q.append(("hist_bins('FSC-H',%s)" % sc, lambda d, sc=sc: d.hist_bins('FSC-H', 16, sc)))
         Q.append(("hist_bins(all,%s)" % sc, lambda d, sc=sc: d.hist_bins(None, None, sc)))
+    # the same query with other parameters is another query: its answer must not be the remembered answer of the first
+    Q.append(("hist_bins('FSC-H',logicle,T=5000,M=4,W=1)", lambda d: d.hist_bins('FSC-H', 16, 'logicle', T=5000.0, M=4.0, W=1.0)))
+    Q.append(("hist_bins('FSC-H',logicle,W=0.5)", lambda d: d.hist_bins('FSC-H', 16, 'logicle', W=0.5)))
+    Q.append(("hist_bins('FSC-H',linear,n=8)", lambda d: d.hist_bins('FSC-H', 8, 'linear')))
+    Q.append(("hist_bins(['FL1-H','FSC-H'],log)", lambda d: d.hist_bins(['FL1-H', 'FSC-H'], [8, 8], 'log')))
     for s in ('mean', 'gmean', 'median', 'mode', 'std', 'cv', 'gstd', 'gcv', 'iqr', 'rcv'):
         Q.append(('stats.' + s, lambda d, s=s: getattr(stats, s)(d, ['FL1-H', 'FSC-H'])))
     Q.append(('start_end', lambda d: gate.start_end(d, 3, 3)))
